@@ -42,11 +42,11 @@ SignReqs == {[kind |-> "sign", alg |-> a, level |-> l, api |-> p] : a \in {"sha2
 (* targets: none (head), the signature's old publication time, the aggregation time itself, later, earlier, a supplied publication record *)
 (* pubrecBad: a supplied publication record with the requested time but a hash that is not the calendar root at that time *)
 Targets == {"head", "equal", "ataggr", "later", "earlier", "pubrec", "pubrecBad"}
-(* api: KSI_Signature_extendTo / KSI_Signature_extend over the blocking client, or KSI_AsyncExtendingHandle_new + KSI_AsyncHandle_getSignature over the *)
+(* api: KSI_Signature_extendTo / KSI_Signature_extend over the blocking TCP client (blocking) or the blocking HTTP client (http), or KSI_AsyncExtendingHandle_new + KSI_AsyncHandle_getSignature over the *)
 (* asynchronous extending service, which can only ask for the head or for a supplied publication record's time                                       *)
 ExtReqs == {[kind |-> "extend", oldcal |-> c, oldanchor |-> an, target |-> t, api |-> p] :
-               c \in BOOLEAN, an \in {"none", "pub", "auth"}, t \in Targets, p \in {"blocking", "async"}}
-            \ ({x \in [kind : {"extend"}, oldcal : {FALSE}, oldanchor : {"pub", "auth"}, target : Targets, api : {"blocking", "async"}] : TRUE}
+               c \in BOOLEAN, an \in {"none", "pub", "auth"}, t \in Targets, p \in {"blocking", "async", "http"}}
+            \ ({x \in [kind : {"extend"}, oldcal : {FALSE}, oldanchor : {"pub", "auth"}, target : Targets, api : {"blocking", "async", "http"}] : TRUE}
                 \cup {x \in [kind : {"extend"}, oldcal : BOOLEAN, oldanchor : {"none", "pub", "auth"}, target : Targets \ {"head", "pubrec", "pubrecBad"}, api : {"async"}] : TRUE})
 
 Init == /\ phase = "idle" /\ reply = [what |-> "-"] /\ result = "-"
